@@ -88,11 +88,17 @@ theorem skel_setupPings_shape :
   "    case c.pongs <- struct{}{}",
   "    default",
   "  return nil",
+  "conn := c.conn",
   "c.conn.SetPingHandler(func{…})",
   "  select",
   "    case c.pongs <- struct{}{}",
   "    default",
-  "  return nil",
+  "  err := conn.WriteControl(websocket.PongMessage, []byte(appData), time.Now().Add(time.Second))",
+  "  if err == websocket.ErrCloseSent",
+  "    return nil",
+  "  else if ok && e.Timeout()",
+  "    return nil",
+  "  return err",
   "stop := make(chan struct{})",
   "go func{…}()",
   "  for",
